@@ -39,6 +39,27 @@ def ref_parse_frags(bs: bytes):
 
 def run(ctx):
     from aiohomekit.protocol.tlv import TLV, TlvParseException
+    if ctx.replay:
+        rep = json.load(open(ctx.replay)).get("replay") or {}
+        ctx.rule = "replay of one stored case on the tree under test"
+        if rep.get("kind") == "item_case":
+            _replay_item_case(ctx, TLV, TlvParseException, {"items": rep["items"], "wire": rep["wire"]})
+        elif rep.get("kind") == "byte_case":
+            _replay_byte_case(ctx, TLV, TlvParseException, {"inp": rep["inp"], "exp": rep["spec"]}, rep.get("expected_filter"))
+        elif "items" in rep:
+            its = rep["items"]
+            try:
+                enc = TLV.encode_list([[t, bytearray(bytes(n))] for t, n in its])
+                dec = TLV.decode_bytes(bytes(enc))
+                if [[int(t), len(v)] for t, v in dec] != [list(x) for x in its]:
+                    ctx.violation(f"decode(encode(items)) != items for {its}", rep)
+            except Exception as ex:  # noqa: BLE001
+                ctx.violation(f"codec raised {type(ex).__name__} on {its}", rep)
+            ctx.case(("replay", json.dumps(its)))
+        ctx.sample({"replayed": rep})
+        ctx.states = ctx.states or 1
+        ctx.transitions = ctx.transitions or 1
+        return
 
     ctx.rule = ("item lists / byte strings enumerated by TLC from spec/codec/Tlv8*.tla; a case is distinct by "
                 "its abstract description (types, lengths, bytes); non-trivial = at least one item or byte")
